@@ -55,7 +55,9 @@ def main():
     ids = [a for a in args if a in props] or sorted(props)
     os.makedirs(SCRATCH, exist_ok=True)
     tgt = os.path.join(SCRATCH, "target")
+    # build scripts and proc macros are instrumented too: keep their profiles out of the source trees
     env = dict(os.environ, CARGO_NET_OFFLINE="true", CARGO_TARGET_DIR=tgt,
+               LLVM_PROFILE_FILE=os.path.join(SCRATCH, "buildprof", "%p-%m.profraw"),
                RUSTFLAGS="-C instrument-coverage --cfg hyperium_h3_verif -C debug-assertions=on -C overflow-checks=on")
     r = sh(["cargo", "+nightly", "build", "--release", "--offline"], cwd=vlib.HARNESS, env=env)
     if r.returncode != 0:
